@@ -82,6 +82,7 @@ func c03(r *core.Run) {
 	r.Rule("S3", "close protocol in closeFn: store nil to the work queue with the lock Held -> Broadcast (not Signal) -> Close on the connection -> close of the in-channel, in dominance order; closeFn is called only from Shutdown; Conn.Close on the service connection only from closeFn", 5)
 	r.Rule("S4", "workers counted: WaitGroup.Add operand and the go-loop bound are the same configuration field; the worker defers Done in its entry block; after every (re-)acquire or wait the worker tests the queue for nil before waiting or popping, and the nil edge reaches return without waiting or draining", 4)
 	r.Rule("S5", "started-check: enqueue, and in every exported Service method every call that may reach Conn.Publish (not through enqueue), is dominated by the state==started edge", 6)
+	r.Rule("O1", "Serve returns after Shutdown (shared with C02.O1): the listener loop receives on the channel value created by this run's serve - the same value stored as the in-channel and closed by the close protocol - by a plain call from serve; re-reading the field (which Shutdown clears) could range over a nil channel for ever", 4)
 	r.Rule("N0", "closed queue stays closed: every store of a possibly non-nil value to the work queue outside serve's initialisation happens, within its critical section, after the queue was observed non-nil", 3)
 	r.Rule("N1", "connection fields stable while serving: the connection and in-channel fields are written only by serve's initialisation (a write elsewhere races with publishing entry points and with Serve's subscribe, which passed the started-check)", 2)
 
@@ -368,6 +369,9 @@ func c03(r *core.Run) {
 			}
 		}
 	}
+
+	// ---- O1 (shared with C02) ------------------------------------------------
+	c02Listener(r, "O1", a, root)
 
 	// ---- S4 --------------------------------------------------------------
 	c03Workers(r, a, e)
